@@ -2,7 +2,7 @@
    Statements only; proofs are in theories/Poly_*.v. The model functions (Poly.v) are tied to
    pymwp/polynomial.py and monomial.py by the structural correspondence run of tools/props/c09.py. *)
 From Coq Require Import List Bool.
-From PM Require Import Semiring Poly Poly_sem Poly_add Poly_times.
+From PM Require Import Semiring Poly Poly_sem Poly_add Poly_times RefModel RefModel_operands.
 Import ListNotations.
 
 (* sum: for ALL monomial lists (sorted or not, duplicated, conflicting deltas, zero terms) *)
@@ -42,6 +42,39 @@ Theorem C09_monomial_product : forall m1 m2 c, msat m1 ->
   mval (mprod m1 m2) c = if mmatch c (ds m1) && mmatch c (ds m2) then sprod (sc m1) (sc m2) else O.
 Proof. exact mval_mprod_stmt. Qed.
 
+(* "Neither operation changes its operands" -- in the REFERENCE-level model (RefModel.v: a heap of monomial
+   objects addressed by stamps; Polynomial.list holds references; `new_list[i].scalar = ...` and
+   `lhead.scalar = ...` are in-place writes; the argument's monomials enter the result of add by reference).
+   The model is tied to the real object graph by tools/props/c13.py (object identities) and to operand
+   snapshots by tools/props/c09.py.
+   add, for ARBITRARY operands (unsorted, duplicated delta lists, aliased: x.add(x)): no monomial object that
+   existed before the call has any field changed.  The reason (proved, not assumed): Polynomial.inclusion
+   answers "no relation" only for different delta lists, so an argument monomial that enters new_list by
+   reference never meets an equal delta list; the EQUAL branch of the main loop is dead
+   (radd_loop_heap_const) and the write in sort_monomials' merge can only hit copies made by this call. *)
+Theorem C09_add_writes_no_existing_monomial : forall h p q h' r, radd h p q = (h', r) ->
+  length h <= length h' /\ (forall s, s < length h -> hget h' s = hget h s).
+Proof. exact add_writes_nothing_old. Qed.
+Theorem C09_add_operands_unchanged : forall h p q h' r, radd h p q = (h', r) ->
+  valid_p h p -> valid_p h q -> view h' p = view h p /\ view h' q = view h q.
+Proof. exact add_operands_unchanged_any. Qed.
+Theorem C09_times_operands_unchanged : forall h p q h' r, rtimes h p q = (h', r) ->
+  valid_p h p -> valid_p h q -> view h' p = view h p /\ view h' q = view h q.
+Proof. exact times_operands_unchanged. Qed.
+(* the in-place write of the main loop of add is unreachable: the loop returns the heap it was given *)
+Theorem C09_add_loop_never_writes : forall fuel h nl q i h' r,
+  radd_loop fuel h nl q i = Some (h', r) -> h' = h.
+Proof. exact radd_loop_heap_const. Qed.
+(* not vacuous: the write of the merge DOES run (self holding two monomials with one delta list), on a copy *)
+Theorem C09_merge_write_hits_fresh_copy :
+  let h' := fst (radd dup_heap [2; 3] [4]) in
+  length dup_heap = 5 /\
+  hget dup_heap 3 = Mono M [(0, 0)] /\        (* the original of the copy with stamp 6 *)
+  hget h' 6 = Mono W [(0, 0)] /\              (* ... whose scalar was assigned by the merge *)
+  hget h' 3 = Mono M [(0, 0)] /\
+  view h' [2; 3; 4] = view dup_heap [2; 3; 4].
+Proof. exact sort_write_hits_fresh_copy. Qed.
+
 Print Assumptions C09_add_pointwise.
 Print Assumptions C09_times_pointwise.
 Print Assumptions C09_add_terminates.
@@ -50,3 +83,8 @@ Print Assumptions C09_add_normal_form.
 Print Assumptions C09_times_normal_form.
 Print Assumptions C09_choice_scalar_is_val.
 Print Assumptions C09_monomial_product.
+Print Assumptions C09_add_writes_no_existing_monomial.
+Print Assumptions C09_add_operands_unchanged.
+Print Assumptions C09_times_operands_unchanged.
+Print Assumptions C09_add_loop_never_writes.
+Print Assumptions C09_merge_write_hits_fresh_copy.
